@@ -764,7 +764,7 @@ def _winner(obs):
 
 
 def _marker_key(s):
-    m = re.search(r"\[(?:T|M):([^\]]*)\]", s)
+    m = re.search(r"\[(?:T|M):([^\]\s]*)", s)
     return m.group(1) if m else None
 
 
@@ -830,11 +830,6 @@ def signature(case, obs, kind):
         impk = "none" if meta["imp"] is None else ("star" if "*" in meta["imp"] else "named")
         return "g4:%s:import=%s:exp=%s:obs=%s" % (meta["probe"], impk, _winner(tuple(exp)) if exp[0] == "out" else exp[1], how if obs[0] != "out" else _winner(obs))
     if g == "g5":
-        # the first hop whose marker is missing
-        hop = "?"
-        if obs[0] == "out":
-            seen = re.findall(r"<(\d+):", obs[1])
-            hop = str(len(seen))
         return "g5:%s:%s:exp=%s:obs=%s" % (meta["mechs"], meta["spells"], exp[0] if exp[0] != "err" else exp[1], how)
     return "%s:exp=%s:obs=%s" % (g, exp[0], how)
 
@@ -962,9 +957,37 @@ def replay(case):
 # corpus for C08
 
 
+def _strip_uri_stmts(files):
+    """the same program without the statements that print a URI (C08 renders a program under several
+    spellings of its main URI, which legitimately changes what .uri prints)"""
+
+    def st(stmts):
+        out = []
+        for s in stmts:
+            if s[0] in ("uri", "probe"):
+                continue
+            if s[0] == "block":
+                s = [s[0], s[1], st(s[2])]
+            elif s[0] == "nscall":
+                s = [s[0], s[1], s[2], s[3], st(s[4])]
+            out.append(s)
+        return out
+
+    def df(d):
+        return dict(d, body=st(d["body"]))
+
+    res = {}
+    for p, f in files.items():
+        res[p] = dict(f, body=st(f["body"]), defs=[df(d) for d in f["defs"]], ns=[dict(n, inline=[df(d) for d in n["inline"]]) for n in f["ns"]])
+    return res
+
+
 def corpus(limit=400):
     """representative programs of the smallest non-trivial bound: deterministic, simplest first,
-    round-robin over the grids and, inside a grid, over the construct kinds (mechanism / probe / includer)."""
+    round-robin over the grids and, inside a grid, over the construct kinds (mechanism / site / probe /
+    includer / import mode).  No '.'/'..' URI segments (put_string compares keys unnormalised), no
+    statement that prints a URI; at most a fifth of the programs are ones whose render must raise
+    ("expected": None)."""
     al = alphabet(0)
     streams = []
     for g in ("g1", "g2", "g3", "g4", "g5"):
@@ -973,7 +996,7 @@ def corpus(limit=400):
         for meta, thunk in GRIDS[g]("quick", al):
             if g == "g1" and not (meta["d"] in (0, 2) and meta["present"]):
                 continue
-            if g == "g5" and meta["k"] > 2:
+            if g == "g5" and (meta["k"] > 2 or meta.get("same_name")):
                 continue
             files, M, ctx = thunk()
             if uses_dots(files) or any(has_dots(v) for v in ctx.values() if isinstance(v, str)):
@@ -996,13 +1019,19 @@ def corpus(limit=400):
     out = []
     seen = set()
     pos = [0] * len(streams)
+    nerr = 0
     while len(out) < limit and any(pos[i] < len(s) for i, s in enumerate(streams)):
         for i, s in enumerate(streams):
             if pos[i] >= len(s) or len(out) >= limit:
                 continue
             files, M, ctx, meta = s[pos[i]]
             pos[i] += 1
+            files = _strip_uri_stmts(files)
             exp, _ = R.render(files, M, E.build_ctx(ctx))
+            if exp[0] != "out":
+                if nerr >= limit // 5:
+                    continue
+                nerr += 1
             text = IR.print_program(files)
             key = repr((sorted(text.items()), M, sorted(ctx.items())))
             if key in seen:
